@@ -40,6 +40,9 @@ def rejected_calls(w, rng):
         out.append('mk $x A %s %s %s Opaque [2]' % (b.slot, S('fresh-opaque'), S('t')))
         out.append('mk $x A %s %s %s Nothing [2]' % (b.slot, S('fresh-nothing'), S('t')))
         out.append('mk $x D %s %s %s %s' % (b.slot, S('fresh-df'), S('t'), lst(['%s:x:Double' % S('c'), '%s:x:Int32' % S('c')])))
+        # a column name repeated at a distance
+        out.append('mk $x D %s %s %s %s' % (b.slot, S('fresh-df3'), S('t'), lst(['%s:x:Double' % S('c'), '%s:x:Int32' % S('d'), '%s:x:Double' % S('c')])))
+        out.append('mk $x D %s %s %s %s' % (b.slot, S('fresh-df4'), S('t'), lst(['%s:x:Double' % S('a'), '%s:x:Int32' % S('b'), '%s:x:String' % S('c'), '%s:x:Int32' % S('a')])))
         out.append('mk $x D %s %s %s %s' % (b.slot, S('fresh-df2'), S('t'), lst(['%s:x:Opaque' % S('c')])))
     # foreign-block and missing targets
     if len(blocks) >= 2:
@@ -108,7 +111,9 @@ def rejected_calls(w, rng):
     return out
 
 def history(rng, tier):
-    w = World(rng, names=PLAIN)
+    # mostly plain names; a third of the histories draw from the adversarial pool (UUID-shaped names, twins, names of internal
+    # containers): a refused duplicate must leave no trace there either
+    w = World(rng, names=NAMES if rng.random() < 0.33 else PLAIN)
     w.open('ow')
     for _ in range(rng.randint(25, 50)):
         w.random_step()
